@@ -208,7 +208,11 @@ func (t *Type) yang(b *strings.Builder) {
 	case "enumeration":
 		b.WriteString("type enumeration {")
 		for _, e := range t.Enums {
-			fmt.Fprintf(b, " enum %s { value %d; }", e.Name, e.Value)
+			name := e.Name
+			if name[0] >= '0' && name[0] <= '9' {
+				name = "\"" + name + "\"" // (the lexer reads an unquoted digit as the start of a number)
+			}
+			fmt.Fprintf(b, " enum %s { value %d; }", name, e.Value)
 		}
 		b.WriteString(" }")
 	case "bits":
